@@ -76,3 +76,9 @@ chk("C15", "other",
     "AST loop-step extraction + symbolic execution of the Python kernel bodies (pysym) with rely/guarantee havoc proxies + z3; confirmation on the jitted kernels in a subprocess", "DESIGN.md 3/C15, 2.9", "pysym")
 del NA["C15"]
 NA["C18"] = "persistence is string formatting/parsing through CPython built-ins (float<->decimal), file IO and HDF5: CrossHair (probed: contracts on parameters.saveparameters/loadparameters with symbolic names and ints) finds counterexamples (name 'a-b' comes back as 'a_b' in 9 s) but returns 'Not confirmed' on every positive contract, even for 1-character names, within 60-90 s; no encoding that DECIDES the round trip is within reach, so the property is not claimed (DESIGN.md section 5)"
+
+chk("C04", "other",
+    "Unbounded z3 validity queries over the real constructors/properties executed symbolically (pysym): on a symbolic cell the B matrices of unitcell.__init__, tensor_map.unitcell_to_b and point_by_point.ubi_and_ucell_to_u are equal entry by entry, B is upper triangular with positive diagonal, g.gi = I and B^T B = gi (five of six entries; (1,2) stretch); on a symbolic right-handed UBI the metric and cell extraction of grain, indexing, tensor_map and point_by_point agree, ubi.UB = I, the cell reproduces the metric, rmt.mt = I (metric abstracted), U orthogonal (stretch). TensorMap's derived-map cache is explored over every history of <=3 (4) property reads / UBI replacements on a symbolic voxel. NaN voxels stay NaN (concrete).",
+    "Real-arithmetic model with constrained sin/cos pairs and acos/cos cancellation for |q|<=1; inverse as adjugate/determinant; indexing.ubitoB (cholesky), xfab's Rodrigues vector and numba's gufunc broadcasting are outside the claim; the stretch obligations (B^T B (1,2), U^T U = I) are reported separately and may stay undecided.",
+    "symbolic execution of the Python / numba py_func source (pysym) + z3 NRA validity queries with cut-point staging; bounded history exploration of the cache; counterexamples replayed on the real objects", "DESIGN.md 3/C04", "pysym")
+del NA["C04"]
